@@ -28,8 +28,19 @@ void SDAI_Application_instance::STEPwrite(ostream &, const char *, int) { if (g_
 static MgrNode *verif_GetMgrNode(InstMgr *, int i) { return g_nodes[i]; }
 static int verif_InstanceCount(InstMgr *) { return g_count; }
 #include <math.h>
+#include <string.h>
+/* models for h_FindHeaderSection (see unit.json) */
+static char *verif_strstr(char *h, const char *n) { for (int i = 0; i < 16 && h[i]; i++) { int j = 0; while (j < 8 && n[j] && h[i + j] == n[j]) j++; if (!n[j]) return h + i; } return 0; }
+#define strstr verif_strstr
+namespace std { istream &istream::getline(char *s, long n, char d) {
+    _m_gcount = 0;
+    if (!good()) { if (n > 0) s[0] = 0; _m_state |= failbit; return *this; }
+    long k = 0; bool delim = false;
+    for (int i = 0; i < 10; i++) { int c = peek(); if (c < 0) { _m_state |= eofbit; break; } if (c == (unsigned char)d) { get(); delim = true; break; } if (k >= n - 1) { _m_state |= failbit; break; } s[k++] = (char)get(); }
+    if (n > 0) s[k] = 0; if (k == 0 && !delim) _m_state |= failbit; _m_gcount = (unsigned long)k + (delim ? 1 : 0); return *this; } }
 #include "stepfile_extract.inc"
 #include "stepfile_inline_extract.inc"
+#undef strstr
 #include "src/clutils/errordesc.cc"
 #include "verif.h"
 
